@@ -650,6 +650,46 @@ pub fn run(rep: &mut Report) {
         }
         part.outcome(format!("{}:{}", tmpl, variants.len()));
     }
+    // conditions: all Boolean formulas of depth <= 2 over one kind of operand, built with the constructors;
+    // formulas of different structure (And / Or / Not, arity, nesting) export differently, equal structure equally
+    {
+        use crate::props::c10::{formulas, Script, F};
+        fn constructors_only(f: &F) -> bool {
+            match f {
+                F::Leaf(_) => true,
+                F::And(c, op) | F::Or(c, op) => !*op && c.iter().all(constructors_only),
+                F::Not(c, op) => !*op && constructors_only(c),
+            }
+        }
+        let script = Arc::new(Mutex::new(Script::default()));
+        let fs: Vec<F> = formulas(2, if thorough { 3 } else { 2 }).into_iter().filter(constructors_only).collect();
+        let texts: Vec<(String, Result<String, String>)> = fs
+            .iter()
+            .map(|f| {
+                let c = mahf::Configuration::<TagP>::builder().while_(f.build::<TagP>(&script), |b| b.do_(mahf::components::utils::Noop::new())).build();
+                (f.shape(), catch(|| ron_string(&c)).unwrap_or_else(|p| Err(format!("panic: {}", p))))
+            })
+            .collect();
+        part.transitions += texts.len() as u64;
+        part.traces += 1;
+        part.outcome(format!("formulas:{}", texts.len() > 10));
+        'outer: for i in 0..texts.len() {
+            if let Err(e) = &texts[i].1 {
+                part.violate("C15 export condition-formula fails".to_string(), format!("{}: {}", texts[i].0, e), json!({"kind": "template"}));
+                break;
+            }
+            for j in i + 1..texts.len() {
+                if (texts[i].0 == texts[j].0) != (texts[i].1 == texts[j].1) {
+                    part.violate(
+                        format!("C15 export condition-formula {}", if texts[i].0 == texts[j].0 { "same-structure-different-text" } else { "different-structure-same-text" }),
+                        format!("loop conditions {} and {} export to {:?} and {:?}", texts[i].0, texts[j].0, texts[i].1, texts[j].1),
+                        json!({"kind": "template"}),
+                    );
+                    break 'outer;
+                }
+            }
+        }
+    }
     // configurations that differ only in the identifier a step works under (which evaluator, whose
     // particle bests) differ in structure: serialised alternately, each keeps its own text
     {
